@@ -183,7 +183,13 @@ class Walker:
                     continue
                 if t[0] == "variant" and t[1][0] == "try":
                     # (Try::branch(x) as Continue).0 / (.. as Break).0
-                    t = ("okval", t[1][1]) if t[2] == "Continue" else ("residual", t[1][1])
+                    x = t[1][1]
+                    if t[2] == "Continue" and x[0] == "agg" and x[1] == "adt" and x[3] in ("Ok", "Some") and x[4]:
+                        t = x[4][0]
+                    elif t[2] == "Break" and x[0] == "from_residual":
+                        t = x[1]
+                    else:
+                        t = ("okval", x) if t[2] == "Continue" else ("residual", x)
                     continue
                 t = ("field", t, name)
             elif isinstance(e, dict) and "downcast" in e:
@@ -402,9 +408,7 @@ class Walker:
                 else:
                     st["ncall"] += 1
                     res = ("ret", st["ncall"], fname)
-                    rargs = tuple(("ref", st["env"][a[1][1]]) if (a[0] == "ref" and a[1][0] == "local" and len(a[1]) > 2
-                                                                  and a[1][2] == self.body.path and a[1][1] in st["env"]) else a
-                                  for a in args)
+                    rargs = tuple(self.resolve_locals(st, a) for a in args)
                     ev = ("call", fname, args, res, resolved, t.get("line"), fterm, tuple(t["func"].get("fn_args", [])), rargs,
                           self.body.local_ty(dest["l"]) if not dest["proj"] else None)
                     self.add_event(st, ev)
@@ -421,9 +425,14 @@ class Walker:
                     forks = [{"cons": [], "res": res, "env": {}}]
                 conts = []
                 for i, fk in enumerate(forks):
-                    s2 = st if i == len(forks) - 1 else self.fork(st)
+                    if "state" in fk:
+                        s2 = fk["state"]
+                    else:
+                        s2 = st if i == len(forks) - 1 else self.fork(st)
                     for c in fk.get("cons", []):
                         self.add_cons(s2, c)
+                    if fk.get("cons") and not self.state_feasible(s2):
+                        continue
                     for l, v in fk.get("env", {}).items():
                         s2["env"][l] = v
                     for kx, v in fk.get("mem", {}).items():
@@ -439,6 +448,8 @@ class Walker:
                 if t["target"] is None:
                     for s2 in conts:
                         self.finish(s2, ("diverge", fname, args))
+                    return
+                if not conts:
                     return
                 for s2 in conts[:-1]:
                     if not self.leave(s2, t["target"]):
@@ -457,6 +468,14 @@ class Walker:
                     kv = int(d[1]) if not isinstance(d[1], bool) else (1 if d[1] else 0)
                 elif d[0] == "discr" and d[1][0] == "agg" and d[1][1] == "adt":
                     kv = self.variant_index(d[1])
+                elif d[0] == "discr" and d[1][0] == "try":
+                    y = d[1][1]
+                    if y[0] == "from_residual":
+                        kv = 1          # an error built by `?` is Break
+                    elif y[0] == "agg" and y[1] == "adt":
+                        vi = self.variant_index(y)
+                        if vi is not None and y[3] in ("Ok", "Err", "Some", "None"):
+                            kv = 0 if y[3] in ("Ok", "Some") else 1
                 if isinstance(kv, int):
                     nxt = t["otherwise"]
                     for v, x in targets:
@@ -502,7 +521,20 @@ class Walker:
                 continue
             raise AssertionError("unknown terminator " + k)
 
+    def resolve_locals(self, st, t, depth=0):
+        """replace addresses of this body's value-holding locals by the values they hold (for provenance tracing)"""
+        if not isinstance(t, tuple) or not t or depth > 6:
+            return t
+        if t[0] == "local" and len(t) > 2 and t[2] == self.body.path and t[1] in st["env"]:
+            return self.resolve_locals(st, st["env"][t[1]], depth + 1)
+        if t[0] in ("ref", "deref", "coerce", "cast"):
+            return (t[0], self.resolve_locals(st, t[1], depth + 1)) + t[2:]
+        return t
+
     def branch_feasible(self, st, d, op, v):
+        return True
+
+    def state_feasible(self, st):
         return True
 
     def variant_index(self, agg):
@@ -593,7 +625,22 @@ def fmt(t, depth=0):
         return "(%s)" % ", ".join(fmt(x) for x in t[1])
     if k == "after":
         return "after(%s)" % fmt(t[1])
+    if k == "lin":
+        return "(%s %+d*trip)" % (fmt(t[1]), int(t[2])) if t[2] == int(t[2]) else "(%s + %s*trip)" % (fmt(t[1]), t[2])
+    if k == "havoc":
+        return "~%s" % (t[4] if len(t) > 4 and t[4] else t[2])
+    if k == "trip":
+        return "trip"
+    if k == "slen":
+        return "len(%s)" % fmt(t[1])
+    if k == "local":
+        return "_%s" % t[1]
+    if k == "app":
+        return "%s(%s)" % (short(t[1]), ", ".join(fmt(x) for x in t[2]))
     return str(t)
+
+
+IMPURE = ("read_word", "read_bits", "read_unary", "peek_bits", "next", "write_word", "write_bits", "write_unary", "read_exact", "read", "write")
 
 
 def expand(t, path, depth=0):
@@ -606,6 +653,16 @@ def expand(t, path, depth=0):
     if t[0] == "ret":
         for e in path.events:
             if e[0] == "call" and e[3] == t:
-                return ("app", e[1], tuple(expand(a, path, depth + 1) for a in e[8]))
+                args = tuple(expand(a, path, depth + 1) for a in e[8])
+                # calls that take a mutable reference are not pure: distinguish the n-th identical call
+                if any(isinstance(a, tuple) and a and a[0] == "ref" for a in e[2]) and e[1].split("::")[-1] in IMPURE:
+                    n = 0
+                    for e2 in path.events:
+                        if e2 is e:
+                            break
+                        if e2[0] == "call" and e2[1] == e[1]:
+                            n += 1
+                    return ("app", e[1], args, n)
+                return ("app", e[1], args)
         return ("app", t[2], ())
     return tuple(expand(x, path, depth + 1) if isinstance(x, tuple) else x for x in t)
